@@ -270,7 +270,7 @@ static std::string load_dump(const std::string& path, double unit, const Set<Tag
         // factor: database unit in user units of the loaded library
         c.factor = lib.precision / lib.unit;
         fprintf(o, "OK %s %s\t%s", hex_dbl(lib.unit).c_str(), hex_dbl(lib.precision).c_str(), dump_loaded(lib, c).c_str());
-    }, 20);
+    }, 60);
     if (r.compare(0, 2, "OK") == 0) {
         size_t t = r.find('\t');
         if (status) *status = "ok";
@@ -430,7 +430,7 @@ int main(int argc, char** argv) {
                     c3.sort_props = true;
                     c3.factor = l3.precision / l3.unit;
                     fprintf(o2, "%s", dump_loaded(l3, c3).c_str());
-                }, 20);
+                }, 60);
                 if (r2 != l1) verdict = "FAIL gds-roundtrip-stable a second save/load cycle changes the layout";
             }
             out.P(id, verdict);
@@ -476,7 +476,7 @@ int main(int argc, char** argv) {
                 DumpCfg c3;
                 c3.factor = l2.precision / l2.unit;
                 fprintf(o2, "%s", dump_loaded(l2, c3).c_str());
-            }, 20);
+            }, 60);
             out.P(id, (fst == "ok" && r2 == filtered) ? "ok" : "FAIL gds-filter-vs-discard filtered load differs from load-then-discard");
             tags.clear();
         }
@@ -529,7 +529,7 @@ int main(int argc, char** argv) {
                             bad = "label origin not rescaled";
                 }
                 fprintf(o2, "%s", bad ? bad : "ok");
-            }, 20);
+            }, 60);
             out.P(id, r2 == "ok" ? "ok" : "FAIL gds-target-unit " + r2);
         }
         // ---- raw: raw cells transplanted with GdsWriter load as they load from the original
@@ -556,7 +556,7 @@ int main(int argc, char** argv) {
                 for (auto& l : lines) all += l;
                 all += std::string(" missing=") + (err == ErrorCode::MissingReference ? "1" : "0");
                 fputs(all.c_str(), o2);
-            }, 20));
+            }, 60));
             std::string r2 = in_child([&](FILE* o2) {
                 ErrorCode err = ErrorCode::NoError;
                 Map<RawCell*> rc = read_rawcells(path.c_str(), &err);
@@ -586,7 +586,7 @@ int main(int argc, char** argv) {
                     if (dump_loaded(a, c3) != dump_loaded(b2, c3)) { fprintf(o2, "cell %s loads differently from the new file", chosen[i].c_str()); return; }
                 }
                 fprintf(o2, "ok");
-            }, 20);
+            }, 60);
             out.P(id, r2 == "ok" ? "ok" : "FAIL gds-rawcell-transplant " + r2);
         }
         // ---- gw: the incremental writer (gdswriter_init / write_cell / close) with an arbitrary library name
@@ -600,7 +600,7 @@ int main(int argc, char** argv) {
                 for (uint64_t i = 0; i < lib.cell_array.count; i++) w.write_cell(*lib.cell_array[i]);
                 w.close();
                 fprintf(o2, "ok");
-            }, 20);
+            }, 60);
             std::vector<uint8_t> gb = read_file(p2);
             std::string id = out.add("gw", hex_bytes(gb.data(), gb.size()));
             std::string st2;
